@@ -23,7 +23,7 @@ BATCH = 40
 
 
 def gen(rng, tier):
-    n = 70 if tier == 'quick' else 2500
+    n = G.budget(70) if tier == 'quick' else 2500
     for _ in range(n):
         k = rng.randint(2, 6)
         labs, akind = G.alphabet(rng, k=k)
